@@ -218,7 +218,18 @@ PropFlat(e) == e.ev = "bigflat" =>
    /\ e.ok /\ e.same
    /\ e.msglen = 14 + 2 + Len(ItemHeader(0, e.n)) + e.n * per + 5
    /\ e.nh = 2 + e.n * hp + 2
-InvSeq == l > 0 => PropSeq(E) /\ PropFlat(E)
+\* the size limit reached through a fill: an ASCII variable (whatever bounds it declares) takes a string iff it is inside
+\* the bounds and inside the limit; a list grown by an ellipsis exists iff its element count is inside the limit
+PropRoute(e) == e.ev = "bigroute" =>
+   LET wrap == IF e.via = "item" THEN 0 ELSE IF e.via = "list" THEN 2 ELSE 14 IN
+   IF e.route = "asciifill"
+   THEN LET fits == e.n >= e.lo /\ (e.hi = -1 \/ e.n <= e.hi) /\ Constructible(16, e.n) IN
+        /\ e.built = fits
+        /\ fits => (e.enclen = wrap + Len(ItemHeader(16, e.n)) + e.n
+                    /\ SubSeq(e.head, wrap + 1, wrap + Len(ItemHeader(16, e.n))) = ItemHeader(16, e.n))
+   ELSE /\ e.built = Constructible(0, e.n)
+        /\ e.built => e.enclen = 2 + Len(ItemHeader(0, e.n)) + 3 * e.n + 3
+InvSeq == l > 0 => PropSeq(E) /\ PropFlat(E) /\ PropRoute(E)
 InvExpect == l > 0 => PropExpect(E)
 InvC01 == l > 0 => PropC01(E)
 InvC02 == l > 0 => PropC02(E)
